@@ -55,6 +55,61 @@ Theorem C15_v2_try_complete_always_wins : forall (fx : bool) (hs : list bool) (n
 Proof. exact try_complete_always_wins. Qed.
 Print Assumptions C15_v2_try_complete_always_wins.
 
+(* Mutual exclusion (traces, both variants): acquire events (set_value of a lock operation,
+   try_lock() = true) and release events alternate, each release by the current holder. *)
+Theorem C15_v2_mutex_trace : forall (fx : bool) (hs : list bool) (nt : nat) (sched : list nat),
+  let tr := snd (run step sched (init fx hs nt, [])) in
+  exists h, scan tr = Some h.
+Proof. exact mutex_trace. Qed.
+Print Assumptions C15_v2_mutex_trace.
+
+(* Each receiver is completed at most once (trace form; the trace agrees with the state). *)
+Theorem C15_v2_each_once_trace : forall (fx : bool) (hs : list bool) (nt : nat) (sched : list nat),
+  let c := run step sched (init fx hs nt, []) in
+  forall k, completions (snd c) k = rev (o_res (ops (fst c) k)) /\ length (completions (snd c) k) <= 1.
+Proof. exact each_once_trace. Qed.
+Print Assumptions C15_v2_each_once_trace.
+
+(* cancelled_never_owns: every completion event EComplete k o c carries the path c on which
+   try_complete(k) was won.  On the cancellation paths (CEarly: stop before start; CStop: after
+   a successful try_remove) the receiver gets set_done and the completing thread does not carry
+   the lock (Defs: act_tok = 0 for these contexts).  With the repaired forwarder the converse
+   holds: set_done is delivered ONLY on a cancellation path, i.e. never to an operation that had
+   been given the lock (try_lock in start(), or popped by process_queue). *)
+Theorem C15_v2_cancelled_never_owns : forall (fx : bool) (hs : list bool) (nt : nat) (sched : list nat),
+  let tr := snd (run step sched (init fx hs nt, [])) in
+  forall k o c, In (EComplete k o c) tr ->
+    (is_lock_ctx c = false -> o = ODone) /\ (fx = true -> (o = ODone <-> is_lock_ctx c = false)).
+Proof. exact cancelled_never_owns. Qed.
+Print Assumptions C15_v2_cancelled_never_owns.
+
+(* FIFO: at every moment, the waiters in the order in which their push_back claimed the tail,
+   minus those removed by a successful try_remove (cancelled while queued), are exactly the
+   waiters already popped (in pop order) followed by the queue: waiters are handed the mutex in
+   the order they queued, and nobody is claimed twice. *)
+Theorem C15_v2_fifo : forall (fx : bool) (hs : list bool) (nt : nat) (sched : list nat),
+  let c := run step sched (init fx hs nt, []) in
+  filter (fun i => negb (mem_nat i (removed (snd c)))) (claims (snd c)) = pops (snd c) ++ queue (fst c)
+  /\ NoDup (claims (snd c)).
+Proof. exact fifo. Qed.
+Print Assumptions C15_v2_fifo.
+
+(* No lost waiter, invariant part (both variants): an operation on which try_complete has not
+   been called is never dropped - exactly one handle to it exists (its own thread before
+   push_back, the queue, or one thread about to call try_complete); and the Dekker property of
+   locked_ / queue_: when locked_ is false and a waiter is queued, some thread is between its
+   push_back and its locked_.exchange or between locked_.store(false) and the re-check.
+   FULL STATEMENT (not proved here, see the report): with the repaired forwarder every reachable
+   non-quiescent state has an enabled thread (no deadlock), hence if every holder unlocks every
+   started uncancelled lock completes.  The K1 exploration checks it on every explored schedule
+   (a starved locker fails the driver's monitor). *)
+Theorem C15_v2_no_lost_waiter_partial : forall (fx : bool) (hs : list bool) (nt : nat) (sched : list nat),
+  let s := fst (run step sched (init fx hs nt, [])) in
+  (forall k, k < nl s -> o_completed (ops s k) = false -> handles s k = 1) /\
+  (locked s = false -> queue s <> [] -> guards s >= 1).
+Proof. exact no_lost_waiter. Qed.
+Print Assumptions C15_v2_no_lost_waiter_partial.
+
 (* the full state invariant *)
 Theorem C15_v2_inv_reachable : forall (fx : bool) (hs : list bool) (nt : nat) (sched : list nat),
   Inv (fst (run step sched (init fx hs nt, []))).
